@@ -724,7 +724,9 @@ func c15TOC(c *core.Ctx, r *rng.R) *core.Result {
 				// regenerate in place: still one table of contents, now for the newly requested level
 				max := r.Range(1, 9)
 				var err error
-				cg := core.Catch(func() { err = d.AutoGenerateTOC(&document.TOCConfig{Title: "Contents", MaxLevel: max, ShowPageNum: true}) })
+				cg := core.Catch(func() {
+					err = d.AutoGenerateTOC(&document.TOCConfig{Title: "Contents", MaxLevel: max, ShowPageNum: true})
+				})
 				log = append(log, fmt.Sprintf("AutoGenerateTOC-again(max%d)", max))
 				if cg != nil {
 					res.Add("toc/AutoGenerateTOC-again/"+cg.Key(), "AutoGenerateTOC panicked: "+cg.Msg, cg.Stack)
